@@ -5,10 +5,10 @@ import math
 from fractions import Fraction
 import sympy as sp
 import z3
-PIQ = sp.Rational(Fraction(math.pi))      # the value of the M_PI literal as the executor reads it
 from vlib import core, rvc
 from vlib.core import Ob
 from vlib.rvc import D, Mx, Exec, Ret, Thrown, SInt
+PIQ = rvc.float_literal(repr(math.pi))      # the value of the M_PI literal as the executor reads it
 
 REL = 'csg/src/tools/csg_stat_imc.cc'
 META = {
